@@ -1,12 +1,9 @@
-(* Obligation C02/shipped_pairs_matching.  Statement as printed by Coq from Inferno.C02.SelectProofs; proof by reference.
+(* Obligation C02/shipped_pairs_matching.  Statement as printed by Coq from Inferno.C02.RoundTrip; proof by reference.
    This file contains nothing else, so the statement cannot be weakened quietly. *)
-From Coq Require Import List ZArith Bool Arith Lia Reals Lra.
-From Flocq Require Import Core.Raux.
-From Inferno Require Import Base.Num Base.NumR Gen.Infra Gen.Interpolation Gen.Extrapolation C01.Ring C01.RingProofs C02.Select C02.RoundTrip C02.SelectProofs.
-Import ListNotations.
-Theorem shipped_pairs_matching : forall dt : R,
+From Coq Require Import Reals.
+From Inferno Require Import Base.Num Base.NumR Gen.Interpolation Gen.Extrapolation C02.Matching C02.RoundTrip.
+Theorem shipped_pairs_matching : forall (dt tc rc : R) (adjust : option (R -> R)),
   0 < dt ->
-  forall (tc rc : R) (adjust : option (R -> R)),
   matching dt (interp_previous RN) (extrap_previous RN) /\
   matching dt (interp_next RN) (extrap_next RN) /\
   matching dt (interp_nearest RN) (extrap_nearest RN) /\
@@ -22,5 +19,5 @@ Theorem shipped_pairs_matching : forall dt : R,
     (fun x sa p n st : R => extrap_expdecay RN x sa p n st tc) /\
   matching dt (fun p n sa st : R => interp_expratedecay RN p n sa st rc)
     (fun x sa p n st : R => extrap_expratedecay RN x sa p n st rc).
-Proof. exact (@Inferno.C02.SelectProofs.shipped_pairs_matching). Qed.
+Proof. exact (@Inferno.C02.RoundTrip.shipped_pairs_matching). Qed.
 Print Assumptions shipped_pairs_matching.
